@@ -525,12 +525,38 @@ impl Task for ExternalEquivalenceTask {
         }
 
         let theory_translate = |program: asp::Program| {
+            // An output predicate that does not occur in the program has no rules:
+            // its completed definition is p(X1, ..., Xn) <-> #false
+            let undefined_outputs: Vec<fol::Predicate> = {
+                let program_predicates: IndexSet<fol::Predicate> = program
+                    .predicates()
+                    .into_iter()
+                    .map(fol::Predicate::from)
+                    .collect();
+                self.user_guide
+                    .output_predicates()
+                    .into_iter()
+                    .filter(|p| !program_predicates.contains(p))
+                    .collect()
+            };
+
             // TODO: allow more formula representations beyond tau-star
             let mut theory = program
                 .tau_star()
                 .replace_placeholders(&placeholders)
                 .completion(self.user_guide.input_predicates())
                 .expect("tau_star did not create a completable theory");
+
+            for predicate in undefined_outputs {
+                theory.formulas.push(
+                    fol::Formula::BinaryFormula {
+                        connective: fol::BinaryConnective::Equivalence,
+                        lhs: predicate.to_formula().into(),
+                        rhs: fol::Formula::AtomicFormula(fol::AtomicFormula::Falsity).into(),
+                    }
+                    .universal_closure(),
+                );
+            }
 
             if self.simplify {
                 let mut portfolio = [INTUITIONISTIC, HT, CLASSIC].concat().into_iter().compose();
